@@ -21,6 +21,8 @@ pub struct BytesStart { pub lname: Vec<u8>, pub qid: u64 }
 impl BytesStart {
     #[verifier::external_body]
     pub fn local_name(&self) -> (r: LocalName) ensures r@ == self.lname@ { unimplemented!() }
+    #[verifier::external_body]
+    pub fn name(&self) -> (r: QName) ensures r.qid == self.qid { unimplemented!() }
     // the end tag matching this start tag (same qualified name)
     #[verifier::external_body]
     pub fn to_end(&self) -> (r: BytesEnd) ensures r.qid == self.qid { unimplemented!() }
